@@ -82,9 +82,17 @@ Fixpoint take_bytes (size : N) (w : str) : str * str :=
       else ([], w)
   end.
 
+(* splitBytes(word, size), then the progress rule of byteTextWrap: if `before` is empty (size smaller than
+   the next character) that character is taken anyway *)
+Definition split_word (size : N) (w : str) : str * str :=
+  match take_bytes size w with
+  | ([], c :: w') => ([c], w')
+  | p => p
+  end.
+
 (* byteTextWrap's while loop.  [done] = lines[:-1] reversed, [cur] = lines[-1].
-   Raise OtherError  = the Python loop never terminates (splitBytes returned an
-                       empty `before`: size smaller than the next character);
+   Raise OtherError  = `before` empty: impossible since the progress rule (kept so that the shape of the
+                       loop is unchanged; C12_wrap_total proves it is never reached);
    Raise AssertionError = fuel exhausted (proved impossible). *)
 Fixpoint btw_loop (fuel : nat) (size : N) (words : list str) (done : list str) (cur : str)
   : res (list str) :=
@@ -95,7 +103,7 @@ Fixpoint btw_loop (fuel : nat) (size : N) (words : list str) (done : list str) (
       | [] => Ok (rev (cur :: done))
       | word0 :: rest =>
           let split := size <? blen word0 in
-          let '(word, after) := if split then take_bytes size word0 else (word0, []) in
+          let '(word, after) := if split then split_word size word0 else (word0, []) in
           if split && (match word with [] => true | _ => false end) then Raise OtherError
           else
             let words' := if split then after :: rest else rest in
@@ -109,7 +117,7 @@ Definition btw_fuel (words : list str) : nat := S (length (concat words) + lengt
 (* byteTextWrap(text, size) with words = TextWrapper()._split_chunks(text) *)
 Definition byteTextWrap (words : list str) (size : Z) : res (list str) :=
   if existsb has_surrogate words then Raise UnicodeError        (* w.encode() *)
-  else btw_loop (btw_fuel words) (Z.to_N size) words [] [].
+  else btw_loop (btw_fuel words) (N.max 1 (Z.to_N size)) words [] [].   (* if size < 1: size = 1 *)
 
 (* ------------------------------------------------------------------ *)
 (* FormatContext *)
